@@ -83,18 +83,14 @@ theorem compile_never_panics (P : Script) : compile P ≠ .error .nilAddr := by
 
 /-! #### the VM never panics
 
-The FULL statement:
-```
-theorem vm_never_panics (P : Script) (prog : Program) (hc : compile P = .ok prog) (hne : P.stmts ≠ [])
-    (req : Request) (store : Store) : (VM.run prog req store).isPanic = false
-```
-(`P.stmts ≠ []` is a fact of the grammar; `Execute` indexes `Instructions[0]`.)  Proved below for the fragment
-`Script.frag` (see `C08.compile_correct_partial`), for EVERY variable map and EVERY store content: none of the
-explicit panic outcomes of the VM model (typed pop of the wrong type, pop on an empty stack, `BUMP` out of
-range, `SAVE`/`repay` through a missing balance map, nil `Amount`, "stack not empty after execution",
-unsupported value in `GetTxMetaJSON`) is reachable.  Missing: the typing argument for source / destination
-allotments and ordered destinations (`MAKE_ALLOTMENT`, `ALLOC`, `BUMP n`, `kept`) — observed panic-free by the
-differential (model and real VM agree on panic / no panic on every generated case). -/
+`vm_never_panics`: for EVERY compiled program (the whole language; side conditions `Script.wellFormed`, see
+`C08.compile_correct`: at least one statement — `Execute` indexes `Instructions[0]` —, lists shorter than 2^64, no
+portion literal with a zero denominator), EVERY variable map and EVERY store content: none of the explicit panic
+outcomes of the VM model (typed pop of the wrong type, pop on an empty stack, `BUMP` out of range, `SAVE`/`repay`
+through a missing balance map, nil `Amount`, "stack not empty after execution", unsupported value in
+`GetTxMetaJSON`, the type assertions of `ResolveResources`/`ResolveBalances`) is reachable.  It is a corollary of
+compiler correctness: `VM.run` of the compiled program is `Spec.run`, whose outcome type has no panic.
+`vm_never_panics_partial` is the earlier statement on `Script.frag` (kept). -/
 theorem vm_never_panics_partial (P : Script) (prog : Program) (hc : compile P = .ok prog) (hfr : P.frag)
     (req : Request) (store : Store) : (VM.run prog req store).isPanic = false := by
   cases hv : VM.setVarsFromJSON prog req.vars with
@@ -126,6 +122,31 @@ theorem vm_never_panics_partial (P : Script) (prog : Program) (hc : compile P = 
           obtain ⟨m', hx, hr'⟩ := hex
           simp only [hx, hr'.txMeta, hr'.acctMeta, renderTxMeta_map, renderAcctMeta_map]
           split <;> rfl
+
+/-- **no script, variable map or ledger state can make the VM panic** — the whole language -/
+theorem vm_never_panics (P : Script) (prog : Program) (hc : compile P = .ok prog) (hwf : P.frag2)
+    (req : Request) (store : Store) : (VM.run prog req store).isPanic = false := by
+  have h := run_eq hc hwf req store
+  cases hr : VM.run prog req store with
+  | ok r => rfl
+  | error e => rfl
+  | panic k =>
+    rw [hr] at h
+    cases hs : (Num.run P req store).map Num.Result.obs with
+    | ok o => rw [hs] at h; cases h
+    | error e => rw [hs] at h; cases h
+
+/-! non-vacuity: the hypotheses are satisfiable by a program with allotments on both sides, an ordered destination
+with `kept`, and a portion literal as metadata -/
+def exAll : Script :=
+  ⟨[], [.send (.mon (.mon (.asset "USD") 9))
+          (.allot [(.const ⟨1, 3⟩, .acct (.acct "b") .none), (.remaining, .acct (.acct "world") .none)])
+          (.inorder (.cons (.mon (.asset "USD") 2) .kept .nil)
+            (.to (.allot (.cons (.const ⟨1, 2⟩) (.to (.acct (.acct "x"))) (.cons .remaining (.to (.acct (.acct "y"))) .nil))))),
+        .setTxMeta "p" (.portion ⟨2, 4⟩)]⟩
+
+example : Script.frag2 exAll := ⟨by simp [exAll], by intro s hs; simp [exAll] at hs; rcases hs with rfl | rfl <;> decide⟩
+example : (compile exAll).toOption.isSome = true := by decide +kernel
 
 end C12
 
